@@ -45,7 +45,7 @@ def is_lazy(v):
 
 
 def run(ctx):
-    C.setup_impl_env()
+    C.setup_impl_env(prior_use=0)
     import dask
     import dask.threaded
     import dask.local
